@@ -485,6 +485,124 @@ let handle fields impl : string option * string list =
         !f
       | Some _ -> ["crash-observation-shape"] in
     (Some m, mons)
+  | ["fscrash"; capmb; node; opss; _k; variant] ->
+    (* crash just before the k-th file-system operation; `done` puts had returned, `started` had been called.
+       Allowed: NewStorage on ANY prefix of the committed batches between what the model knows to be durable after the
+       completed puts and everything committed by the started ones (both for the image with unsynced writes dropped and
+       for the one with all written bytes kept: pebble hands batches to its log writer asynchronously). *)
+    let capmb = (match n_of_dec_opt capmb with Some c -> c | None -> zero) and node = Util.bytes_of_hex node and ops = parse_ops opss in
+    let ids = pool ops in
+    let parsed =
+      if not (starts impl "ok ") then None else
+      match split ' ' impl with
+      | ["ok"; d; st; ob] -> (match int_of_string_opt d, int_of_string_opt st with Some d, Some st -> Some (d, st, "ok " ^ ob) | _ -> None)
+      | _ -> None in
+    (match parsed with
+     | None -> (Some "ok <done> <started> <observation>", ["fs-crash-reopen-failed variant=" ^ variant ^ " " ^ (if String.length impl > 100 then String.sub impl 0 100 else impl)])
+     | Some (d, st, obs_s) ->
+       let run_puts n =
+         let y = ref (init capmb k_contentDeletionPPM (b node)) in
+         List.iter (fun o -> match o with
+           | P (id, x) -> (match step vlen vhead8 le_dec !y (OPut (b id, x)) with Ok y' -> y := y' | _ -> ())
+           | _ -> ()) (take_l n ops);
+         !y in
+       let yd = run_puts d and ys = run_puts st in
+       let lo = int_nat yd.synced and hi = List.length ys.disk in
+       let ys' = { ys with synced = nat_ lo } in
+       let allowed = List.init (hi - lo + 1) (fun i ->
+         match step vlen vhead8 le_dec ys' (OCrash (nat_ (lo + i))) with
+         | Ok y' -> "ok " ^ observe "-" y' ids
+         | _ -> "model-open-fails") in
+       let m = if List.mem obs_s allowed then impl
+               else Printf.sprintf "none-of-%d-allowed-cuts[%d..%d] e.g. %s" (List.length allowed) lo hi (List.nth allowed (List.length allowed - 1)) in
+       let mons = match parse_obs obs_s with
+         | Some [ob] ->
+           let putvals = Hashtbl.create 16 in
+           List.iter (function P (id, x) -> Hashtbl.add putvals id (show_val x) | _ -> ()) (take_l st ops);
+           let f = ref [] in
+           let fl s = f := (s ^ " variant=" ^ variant) :: !f in
+           List.iteri (fun j id ->
+             let g = List.nth ob.gets j in
+             if g <> "nf" && not (List.mem g (Hashtbl.find_all putvals id)) then fl (Printf.sprintf "fs-crash-reopen-returns-bytes-never-put id#%d got=%s" j g)) ids;
+           if ob.recs = "none" && ob.held >: zero then fl (Printf.sprintf "fs-crash-reopen-size-record-missing held=%s" (sd ob.held));
+           if ob.recs <> "none" && not (has_rec ob) then fl (Printf.sprintf "fs-crash-reopen-size-record-is-not-a-counter rec=%s" ob.recs);
+           if has_rec ob && rec_n ob <: ob.held then fl (Printf.sprintf "fs-crash-reopen-size-record-below-held rec=%s held=%s" ob.recs (sd ob.held));
+           if has_rec ob && not (N.eqb (rec_n ob) ob.cnt) then fl (Printf.sprintf "fs-crash-reopen-counter-differs-from-record rec=%s counter=%s" ob.recs (sd ob.cnt));
+           (* radius rule on what was reopened: above 95 percent the farthest retained key (the code reads it little-endian,
+              known finding - only checked here through the model comparison), the maximum otherwise *)
+           let thr_ = capmb *: (N.sub k_bytesPerMB k_contentDeletionPPM) in
+           if not (rec_n ob >: thr_) && not (rec_n ob >: (capmb *: k_bytesPerMB)) && ob.rads <> hexn mAXD && not (List.mem obs_s allowed)
+           then fl (Printf.sprintf "fs-crash-reopen-radius-not-max-below-95-percent size=%s radius=%s" ob.recs ob.rads);
+           if not (List.mem obs_s allowed) then fl (Printf.sprintf "fs-crash-state-is-no-allowed-cut done=%d started=%d cuts=%d..%d" d st lo hi);
+           List.rev !f
+         | _ -> ["fs-crash-observation-shape variant=" ^ variant] in
+       (Some m, mons))
+  | ["lin"; capmb; node; plan] ->
+    (* a recorded concurrent history of the real store: exhaustive search for a linearization - an order of the puts
+       that respects real time (responded-before-invoked) and under which the extracted sequential model gives every
+       put its observed result and ends in the observed final state *)
+    let capmb = (match n_of_dec_opt capmb with Some c -> c | None -> zero) and node = Util.bytes_of_hex node in
+    let threads = List.map (fun t -> List.filter_map (fun p -> match split ',' p with
+        | [id; vl] -> Some (Util.bytes_of_hex id, parse_val vl) | _ -> None) (split ';' t)) (split '/' plan) in
+    let puts = List.concat threads in
+    let parsed = match split ' ' impl with
+      | ["ok"; ev; fin] ->
+        let evs = List.map (fun e -> match split '.' e with
+          | [i; r; res] -> (match int_of_string_opt i, int_of_string_opt r with Some i, Some r -> Some (i, r, res) | _ -> None)
+          | _ -> None) (split ';' ev) in
+        if List.mem None evs || List.length evs <> List.length puts then None
+        else Some (List.map (function Some x -> x | None -> assert false) evs, "ok " ^ fin)
+      | _ -> None in
+    (match parsed with
+     | None -> (Some "ok <events> <final>", ["concurrent-history-run-failed-or-unparsable " ^ (if String.length impl > 100 then String.sub impl 0 100 else impl)])
+     | Some (evs, fin) ->
+       let ops = Array.of_list (List.map2 (fun (id, x) (i, r, res) -> (id, x, i, r, res)) puts evs) in
+       let n = Array.length ops in
+       let ids = List.rev (List.fold_left (fun acc (id, _) -> if List.mem id acc then acc else id :: acc) [] puts) in
+       let y0 : v sys = init capmb k_contentDeletionPPM (b node) in
+       let nodes = ref 0 in
+       let rec search (y : v sys) (donemask : int) (cnt_done : int) : bool =
+         incr nodes;
+         if cnt_done = n then ("ok " ^ observe "-" y ids) = fin
+         else if !nodes > 2000000 then false
+         else begin
+           let found = ref false in
+           for a = 0 to n - 1 do
+             if not !found && donemask land (1 lsl a) = 0 then begin
+               let (id, x, inv, _, res) = ops.(a) in
+               (* every put that responded before this one was invoked must already be placed *)
+               let ready = ref true in
+               for c = 0 to n - 1 do
+                 if c <> a && donemask land (1 lsl c) = 0 then begin
+                   let (_, _, _, rc, _) = ops.(c) in if rc < inv then ready := false
+                 end
+               done;
+               if !ready then begin
+                 let r = match put vlen le_dec y.mem (b id) x with
+                   | Ok ((_, Stored), _) -> "ok" | Ok ((_, Refused), _) -> "refused" | _ -> "err" in
+                 if r = res then
+                   match step vlen vhead8 le_dec y (OPut (b id, x)) with
+                   | Ok y' -> if search y' (donemask lor (1 lsl a)) (cnt_done + 1) then found := true
+                   | _ -> ()
+               end
+             end
+           done;
+           !found
+         end in
+       let lin = search y0 0 0 in
+       let budget = !nodes > 2000000 in
+       let m = if lin then impl else if budget then "linearization-search-budget-exceeded" else "no-linearization-of-this-history" in
+       let cap = capmb *: k_bytesPerMB in
+       let small = List.for_all (fun (id, x) -> n_ (List.length id + vlen_i x) <=: (capmb *: k_contentDeletionPPM)) puts in
+       let mons =
+         (if not lin && not budget then [Printf.sprintf "concurrent-history-not-linearizable puts=%d searched=%d" n !nodes] else []) @
+         (match parse_obs fin with
+          | Some [ob] ->
+            (if has_rec ob && ob.held >: rec_n ob then [Printf.sprintf "concurrent-puts-held-exceeds-size-record held=%s rec=%s" (sd ob.held) ob.recs] else []) @
+            (if ob.held >: ob.cnt then [Printf.sprintf "concurrent-puts-held-exceeds-counter held=%s counter=%s" (sd ob.held) (sd ob.cnt)] else []) @
+            (if small && ob.held >: cap then [Printf.sprintf "held-exceeds-capacity-after-quiescence held=%s cap=%s" (sd ob.held) (sd cap)] else [])
+          | _ -> ["concurrent-history-final-observation-unparsable"]) in
+       (Some m, mons))
   | ["xor"; id; node] ->
     let m = match xor_key (b (Util.bytes_of_hex id)) (b (Util.bytes_of_hex node)) with
       | Ok k -> "ok " ^ Util.hex_of_bytes (ub k) | Err _ -> "err" | Panic -> "panic" in
@@ -516,7 +634,7 @@ let handle fields impl : string option * string list =
        (None,
         (if held >: rc then [Printf.sprintf "concurrent-puts-held-exceeds-size-record held=%s rec=%s" (sd held) (sd rc)] else []) @
         (if held >: cnt then [Printf.sprintf "concurrent-puts-held-exceeds-counter held=%s counter=%s" (sd held) (sd cnt)] else []) @
-        (if small && held >: cap then [Printf.sprintf "concurrent-puts-held-exceeds-capacity held=%s cap=%s" (sd held) (sd cap)] else []) @
+        (if small && held >: cap then [Printf.sprintf "held-exceeds-capacity-after-quiescence held=%s cap=%s" (sd held) (sd cap)] else []) @
         (if errs >: zero then [Printf.sprintf "concurrent-puts-prune-error errs=%s" (sd errs)] else []))
      | _ -> (None, ["concurrent-puts-run-failed-or-unparsable " ^ impl]))
   | ["inr"; node; radius; cid] ->
